@@ -127,6 +127,9 @@ class ZkStore:
         owner = self.nodes[path].owner if path in self.nodes else None
         if self.fail_at is not None and self.writes == self.fail_at:
             self.log.append((op, path, session, owner, False))
+            exc = getattr(self, 'fail_exc', None)
+            if exc is not None:
+                raise exc('%s %s (write %d)' % (op, path, self.writes))
             raise InjectedCrash('%s %s (write %d)' % (op, path, self.writes))
         self.log.append((op, path, session, owner, True))
         self.zxid += 1
